@@ -120,7 +120,12 @@ func (pc *propConfig) run(prop string, g *G, idx funcIndex, cs *contractSet, out
 			}
 			pathsTotal += ex.paths
 			for _, o := range ex.obls {
-				if len(o.Tags) == 0 || hasTag(o.Tags, prop) {
+				// obligations of the property itself, plus the structural
+				// obligations its proof rests on whatever they are tagged
+				// with: callee preconditions at call sites, loop and Range
+				// invariants, frames, site assertions, lock coverage
+				structural := o.Kind == "pre" || o.Kind == "inv" || o.Kind == "frame" || o.Kind == "assert" || o.Kind == "lock"
+				if len(o.Tags) == 0 || hasTag(o.Tags, prop) || structural {
 					all = append(all, o)
 				}
 			}
@@ -148,7 +153,7 @@ func (pc *propConfig) run(prop string, g *G, idx funcIndex, cs *contractSet, out
 		}
 	}
 	sort.SliceStable(all, func(i, j int) bool { return all[i].Name < all[j].Name })
-	timeout := 10000
+	timeout := 20000
 	if thorough {
 		timeout = 120000
 	}
